@@ -245,7 +245,10 @@ def impl_vs_impl(rng, n, residuals_only=False, terms_only=False):
         # it on the grid of the batch columns, the pointwise one on every (x_i, y_j) pair
         s, r = spinn(rng, 3, 1, "nonstatio_PDE"); tw = make_twin(s, True)
         Ps = Params(nn_params=s.init_params(), eq_params={}); Pt = Params(nn_params=tw.init_params(), eq_params={})
-        icf = lambda x: 1.0 + 2.0 * x[..., 0:1] - 3.0 * x[..., 1:2] + x[..., 0:1] * x[..., 1:2] ** 2
+        if rnd % 2 == 0:
+            icf = lambda x: 1.0 + 2.0 * x[..., 0:1] - 3.0 * x[..., 1:2] + x[..., 0:1] * x[..., 1:2] ** 2
+        else:       # the user's initial state returns a bare number per point (no trailing (1,) axis)
+            icf = lambda x: 1.0 + 2.0 * x[..., 0] - 3.0 * x[..., 1] + x[..., 0] * x[..., 1] ** 2
         t0 = dy(rng, 0, 2); ts = jnp.array([[t0 + 0.375 * k] for k in range(B)])
         xy = jnp.array([[dy(rng) + 0.125 * k, dy(rng) - 0.25 * k] for k in range(B)])
         common = dict(dynamic_loss=None, initial_condition_fun=icf)
